@@ -1,13 +1,18 @@
 package clip
 
 import (
-	"encoding/json"
-	"github.com/tailscale/setec/types/api"
-	"sync/atomic"
 	"context"
+	"encoding/json"
 	"fmt"
+	"github.com/tailscale/setec/types/api"
+	"io"
+	"net"
+	"net/http"
 	"sort"
+	"strings"
 	"sync"
+	"sync/atomic"
+	"syscall"
 	"testing"
 	"testing/synctest"
 	"time"
@@ -280,7 +285,7 @@ func runC16WinnersBubble(c WinnersCase, info *h.Info, prop string) *h.Violation 
 
 var c16winners = &h.Campaign[WinnersCase]{
 	Prop: "C16", Sub: "winners",
-	Rule: "rapid + testing/synctest: 2-8 callers (LookupSecret / NewUpdater / Fields.Apply, contexts cancellable only by the harness) look up one unknown name, started 0-700 ms apart; the first K (1-5) requests reaching the service hang, the harness reads from each request's context WHOSE request it is and cancels exactly that caller 1-20 s later; afterwards the service answers; every caller never cancelled must return a working handle, never two requests in flight, and at most one answered request per surviving caller; non-trivial = at least two successive winners gave up while others waited; distinct by scenario",
+	Rule:  "rapid + testing/synctest: 2-8 callers (LookupSecret / NewUpdater / Fields.Apply, contexts cancellable only by the harness) look up one unknown name, started 0-700 ms apart; the first K (1-5) requests reaching the service hang, the harness reads from each request's context WHOSE request it is and cancels exactly that caller 1-20 s later; afterwards the service answers; every caller never cancelled must return a working handle, never two requests in flight, and at most one answered request per surviving caller; non-trivial = at least two successive winners gave up while others waited; distinct by scenario",
 	Quick: 1500, Thorough: 100000,
 	Gen: func(rt *rapid.T) WinnersCase {
 		return WinnersCase{
@@ -399,7 +404,7 @@ func runC16LookupCache(t *testing.T, c LookupCacheCase) (*h.Violation, h.Info) {
 
 var c16lookupCache = &h.Campaign[LookupCacheCase]{
 	Prop: "C16", Sub: "lookup-cache",
-	Rule: "rapid, real time: 2-6 concurrent LookupSecret calls over 1-4 different unknown names on a store whose cache device holds one generated Write call for 1-8 ms (the later lookups start once that write is being held, or after generated pauses); afterwards the last cache document must list every looked-up secret with its bytes, and a store restarted from it with the service away must know them all; non-trivial = at least two different names; distinct by (scenario, run) because the interleaving is sampled",
+	Rule:  "rapid, real time: 2-6 concurrent LookupSecret calls over 1-4 different unknown names on a store whose cache device holds one generated Write call for 1-8 ms (the later lookups start once that write is being held, or after generated pauses); afterwards the last cache document must list every looked-up secret with its bytes, and a store restarted from it with the service away must know them all; non-trivial = at least two different names; distinct by (scenario, run) because the interleaving is sampled",
 	Quick: 400, Thorough: 20000,
 	Gen: func(rt *rapid.T) LookupCacheCase {
 		return LookupCacheCase{
@@ -419,9 +424,9 @@ var c16lookupCache = &h.Campaign[LookupCacheCase]{
 // their own after a winner gave up). The same scenarios as the C16 winners; only freshness is judged.
 var c11lookups = &h.Campaign[WinnersCase]{
 	Prop: "C11", Sub: "handles-from-repeated-lookups",
-	Rule: "rapid + testing/synctest: the C16 'winners' scenarios (2-8 callers look one unknown name up, the first 1-5 requests hang and their owners are cancelled, the rest is answered by one or several successive flights); then the service activates a new version, Refresh returns nil, and every handle / updater any caller obtained must yield the new bytes; non-trivial = at least two answered flights for the name; distinct by scenario",
+	Rule:  "rapid + testing/synctest: the C16 'winners' scenarios (2-8 callers look one unknown name up, the first 1-5 requests hang and their owners are cancelled, the rest is answered by one or several successive flights); then the service activates a new version, Refresh returns nil, and every handle / updater any caller obtained must yield the new bytes; non-trivial = at least two answered flights for the name; distinct by scenario",
 	Quick: 800, Thorough: 60000,
-	Gen:   func(rt *rapid.T) WinnersCase { return c16winners.Gen(rt) },
+	Gen: func(rt *rapid.T) WinnersCase { return c16winners.Gen(rt) },
 	Run: func(t *testing.T, c WinnersCase) (v *h.Violation, info h.Info) {
 		synctest.Test(t, func(t *testing.T) { v = runC16WinnersBubble(c, &info, "C11") })
 		nt := false
@@ -446,7 +451,7 @@ var c11lookups = &h.Campaign[WinnersCase]{
 // updater created from an earlier flight must still end up built from the newest installed bytes.
 var c15lookups = &h.Campaign[WinnersCase]{
 	Prop: "C15", Sub: "updaters-from-successive-lookups",
-	Rule: "rapid + testing/synctest: 3-8 callers (mostly NewUpdater, some LookupSecret) ask for one unknown name at once; the first 1-3 requests hang and their owners are cancelled, so the remaining callers are all released at the same moment and their retries form one or several successive flights; the service activates a further version at every request it answers; when all have returned, every updater must yield a value built from the bytes the store's handle returns (the newest installed), also after a poll that finds nothing newer, and after the next activation + Refresh; non-trivial = at least two answered flights for the name; distinct by scenario",
+	Rule:  "rapid + testing/synctest: 3-8 callers (mostly NewUpdater, some LookupSecret) ask for one unknown name at once; the first 1-3 requests hang and their owners are cancelled, so the remaining callers are all released at the same moment and their retries form one or several successive flights; the service activates a further version at every request it answers; when all have returned, every updater must yield a value built from the bytes the store's handle returns (the newest installed), also after a poll that finds nothing newer, and after the next activation + Refresh; non-trivial = at least two answered flights for the name; distinct by scenario",
 	Quick: 1500, Thorough: 150000,
 	Gen: func(rt *rapid.T) WinnersCase {
 		return WinnersCase{
@@ -489,6 +494,7 @@ func runC16Retry(t *testing.T, c RetryCase) (v *h.Violation, info h.Info) {
 		svc.Set("d", 1, []byte("dv"))
 		svc.Set("x", 3, []byte(xVal))
 		var client setec.StoreClient = svc
+		transportAttempts, armed := 0, false
 		if c.FailKind == "cut" {
 			full, _ := json.Marshal(&api.SecretValue{Version: 3, Value: []byte(xVal)})
 			cut := full[:c.CutAt%len(full)]
@@ -501,6 +507,23 @@ func runC16Retry(t *testing.T, c RetryCase) (v *h.Violation, info h.Info) {
 				return 0, nil, false
 			})
 			info.Class(fmt.Sprintf("reply-cut-after-%d-of-%d-bytes", len(cut), len(full)))
+		} else if strings.HasPrefix(c.FailKind, "conn-") {
+			// the connection is lost before any reply arrives (the peer closed it, it was reset): the
+			// transport reports that to the client - once - while every context is alive
+			inner := svc.Wire()
+			first := true
+			client = setec.Client{Server: inner.Server, DoHTTP: func(r *http.Request) (*http.Response, error) {
+				if !armed {
+					return inner.DoHTTP(r) // (construction fetches the declared secret first)
+				}
+				transportAttempts++
+				if first {
+					first = false
+					return nil, map[string]error{"conn-eof": io.EOF, "conn-unexpected-eof": io.ErrUnexpectedEOF, "conn-reset": &net.OpError{Op: "read", Net: "tcp", Err: syscall.ECONNRESET}}[c.FailKind]
+				}
+				return inner.DoHTTP(r)
+			}}
+			info.Class("connection-lost-before-the-reply")
 		} else {
 			svc.SetScript("x", []fake.Beh{{Kind: c.FailKind}})
 			if c.Wire {
@@ -514,6 +537,7 @@ func runC16Retry(t *testing.T, c RetryCase) (v *h.Violation, info h.Info) {
 			return
 		}
 		defer st.Close()
+		armed = true
 		ask := func(entry string) (val string, err error, pan any) {
 			defer func() { pan = recover() }()
 			switch entry {
@@ -542,6 +566,9 @@ func runC16Retry(t *testing.T, c RetryCase) (v *h.Violation, info h.Info) {
 			return string(hd.Get()), nil, nil
 		}
 		l0 := svc.LogLen()
+		if strings.HasPrefix(c.FailKind, "conn-") {
+			l0-- // (the lost request never reached the service's log: count it through the transport)
+		}
 		val, err, pan := ask(c.Entry1)
 		if pan != nil {
 			v = h.V("never-a-panic", "the first lookup (via %s, service failure %q) panicked: %v", c.Entry1, c.FailKind, pan)
@@ -551,8 +578,8 @@ func runC16Retry(t *testing.T, c RetryCase) (v *h.Violation, info h.Info) {
 			v = h.V("failed-lookup-reported", "the first request for the name failed (%s) yet the caller (via %s) was given %q and no error", c.FailKind, c.Entry1, val)
 			return
 		}
-		if n := svc.LogLen() - l0; n != 1 {
-			v = h.V("no-automatic-retry", "a lone caller whose request failed (%s) caused %d requests", c.FailKind, n)
+		if n := svc.LogLen() - l0; n != 1 || transportAttempts > 1 {
+			v = h.V("no-automatic-retry", "a lone caller whose request failed (%s) caused %d requests (%d round trips on the transport)", c.FailKind, n, transportAttempts)
 			return
 		}
 		if hd := st.Secret("x"); hd != nil {
@@ -586,11 +613,11 @@ func runC16Retry(t *testing.T, c RetryCase) (v *h.Violation, info h.Info) {
 
 var c16retry = &h.Campaign[RetryCase]{
 	Prop: "C16", Sub: "lookup-after-failure",
-	Rule: "rapid + testing/synctest: the first lookup of an unknown name (LookupSecret / NewUpdater / Fields.Apply) fails - the service errs, lacks the secret, refuses, the request times out, or (through the real setec.Client) the 200 reply is cut short at a generated byte - and must be reported, cause exactly one request and install nothing; 0 ms - 10 min later (virtual) the service is healthy and has the secret: a new lookup must be served by a fresh request and yield a working handle; non-trivial = every completed case; distinct by scenario",
+	Rule:  "rapid + testing/synctest: the first lookup of an unknown name (LookupSecret / NewUpdater / Fields.Apply) fails - the service errs, lacks the secret, refuses, the request times out, or (through the real setec.Client) the 200 reply is cut short at a generated byte - and must be reported, cause exactly one request and install nothing; 0 ms - 10 min later (virtual) the service is healthy and has the secret: a new lookup must be served by a fresh request and yield a working handle; non-trivial = every completed case; distinct by scenario",
 	Quick: 600, Thorough: 60000,
 	Gen: func(rt *rapid.T) RetryCase {
 		return RetryCase{
-			FailKind: rapid.SampledFrom([]string{"err", "notfound", "notfound", "denied", "reqtimeout", "nettimeout", "cut", "cut"}).Draw(rt, "failkind"),
+			FailKind: rapid.SampledFrom([]string{"err", "notfound", "notfound", "denied", "reqtimeout", "nettimeout", "cut", "cut", "conn-eof", "conn-unexpected-eof", "conn-reset"}).Draw(rt, "failkind"),
 			CutAt:    rapid.IntRange(0, 60).Draw(rt, "cutat"),
 			GapMs:    rapid.SampledFrom([]int{0, 1, 1000, 30000, 59000, 61000, 600000}).Draw(rt, "gap"),
 			Entry1:   rapid.SampledFrom([]string{"lookup", "lookup", "updater", "apply"}).Draw(rt, "entry1"),
@@ -617,3 +644,173 @@ func TestC11HandlesFromRepeatedLookups(t *testing.T) { c11lookups.Check(t) }
 
 func TestC16Winners(t *testing.T)     { c16winners.Check(t) }
 func TestC16LookupCache(t *testing.T) { c16lookupCache.Check(t) }
+
+// ---- C16: what a lookup shares, and with whom -------------------------------------------------------
+//
+// "concurrent lookups of the same name share one in-flight request" - of the same STORE, and with
+// other lookups only.  Two stores in one process (two services, two caches) have nothing to share;
+// and a secret may be called anything - "poll" included - without its lookup getting mixed up with
+// the store's other business (a Refresh that happens to be in flight).
+
+var neighbourWaitMs = func() *atomic.Int64 { v := &atomic.Int64{}; v.Store(6000); return v }()
+
+type NeighbourCase struct {
+	Kind  string `json:"kind"`  // two-stores | lookup-during-refresh | refresh-during-lookup
+	Name  string `json:"name"`  // the undeclared name that is looked up
+	Entry string `json:"entry"` // lookup | updater
+}
+
+func runC16Neighbours(t *testing.T, c NeighbourCase) (*h.Violation, h.Info) {
+	var info h.Info
+	mkStore := func(tag string) (*fake.Svc, *setec.Store, error) {
+		svc := fake.NewSvc()
+		svc.Set("d", 1, []byte("dv-"+tag))
+		svc.Set(c.Name, 3, []byte("value-from-"+tag))
+		st, err := setec.NewStore(context.Background(), setec.StoreConfig{Client: svc, Secrets: []string{"d"}, AllowLookup: true, PollInterval: -1, Logf: nolog})
+		return svc, st, err
+	}
+	ask := func(st *setec.Store) (string, error) {
+		if c.Entry == "updater" {
+			u, err := setec.NewUpdater(context.Background(), st, c.Name, func(b []byte) (string, error) { return string(b), nil })
+			if err != nil {
+				return "", err
+			}
+			return u.Get(), nil
+		}
+		hd, err := st.LookupSecret(context.Background(), c.Name)
+		if err != nil {
+			return "", err
+		}
+		return string(hd.Get()), nil
+	}
+	type res struct {
+		val string
+		err error
+		pan any
+	}
+	async := func(f func() (string, error)) chan res {
+		ch := make(chan res, 1)
+		go func() {
+			var r res
+			defer func() {
+				if p := recover(); p != nil {
+					r.pan = p
+				}
+				ch <- r
+			}()
+			r.val, r.err = f()
+		}()
+		return ch
+	}
+	wait := func(ch chan res, what string) (res, *h.Violation) {
+		select {
+		case r := <-ch:
+			if r.pan != nil {
+				return r, h.V("never-a-panic", "%s panicked: %v", what, r.pan)
+			}
+			return r, nil
+		case <-time.After(time.Duration(neighbourWaitMs.Load()) * time.Millisecond):
+			// (once a call has been seen to hang, the re-runs rapid makes while it shrinks the scenario
+			// need not wait as long again)
+			neighbourWaitMs.Store(400)
+			return res{}, h.V("working-handle", "%s had not returned after several seconds of real time although its own service answers at once (it is waiting for somebody else's request)", what)
+		}
+	}
+	svcA, stA, err := mkStore("A")
+	if err != nil {
+		return h.V("harness", "NewStore: %v", err), info
+	}
+	defer stA.Close()
+	defer svcA.Release()
+	switch c.Kind {
+	case "two-stores":
+		svcB, stB, err := mkStore("B")
+		if err != nil {
+			return h.V("harness", "NewStore: %v", err), info
+		}
+		defer stB.Close()
+		svcA.SetScript(c.Name, []fake.Beh{{Kind: "gate"}})
+		chA := async(func() (string, error) { return ask(stA) })
+		if !waitInFlight(svcA, c.Name) {
+			return h.V("harness", "store A's lookup did not reach its service"), info
+		}
+		rB, v := wait(async(func() (string, error) { return ask(stB) }), "the lookup on store B (store A's lookup of the same name is still pending at A's service)")
+		if v != nil {
+			svcA.OpenGate()
+			return v, info
+		}
+		if rB.err != nil || rB.val != "value-from-B" {
+			svcA.OpenGate()
+			return h.V("working-handle", "two stores in one process, each with its own service; while store A's lookup of %q was pending, the lookup on store B returned %q, %v - its service serves %q", c.Name, rB.val, rB.err, "value-from-B"), info
+		}
+		if svcB.CountFor(c.Name) != 1 || stB.Secret(c.Name) == nil {
+			svcA.OpenGate()
+			return h.V("unknown-name-is-fetched", "store B's service saw %d requests for %q and store B knows the secret = %v after its lookup succeeded", svcB.CountFor(c.Name), c.Name, stB.Secret(c.Name) != nil), info
+		}
+		svcA.OpenGate()
+		rA, v := wait(chA, "the lookup on store A")
+		if v != nil {
+			return v, info
+		}
+		if rA.err != nil || rA.val != "value-from-A" {
+			return h.V("working-handle", "store A's lookup returned %q, %v", rA.val, rA.err), info
+		}
+		info.Class("two-stores-look-the-same-name-up")
+	case "lookup-during-refresh":
+		svcA.SetScript("d", []fake.Beh{{Kind: "gate"}})
+		chR := async(func() (string, error) { return "", stA.Refresh(context.Background()) })
+		if !waitInFlight(svcA, "d") {
+			return h.V("harness", "the poll did not reach the service"), info
+		}
+		r, v := wait(async(func() (string, error) { return ask(stA) }), fmt.Sprintf("the lookup of %q while a Refresh is in flight", c.Name))
+		svcA.OpenGate()
+		if v != nil {
+			return v, info
+		}
+		if r.err != nil || r.val != "value-from-A" || svcA.CountFor(c.Name) < 1 {
+			return h.V("unknown-name-is-fetched", "a lookup of the secret named %q while a Refresh was in flight returned %q, %v after %d requests for it", c.Name, r.val, r.err, svcA.CountFor(c.Name)), info
+		}
+		if rr, v := wait(chR, "the Refresh"); v != nil || rr.err != nil {
+			return h.V("harness", "Refresh: %v %v", v, rr.err), info
+		}
+		info.Class("lookup-while-a-refresh-is-in-flight")
+	case "refresh-during-lookup":
+		svcA.SetScript(c.Name, []fake.Beh{{Kind: "gate"}})
+		chL := async(func() (string, error) { return ask(stA) })
+		if !waitInFlight(svcA, c.Name) {
+			return h.V("harness", "the lookup did not reach the service"), info
+		}
+		svcA.Set("d", 2, []byte("dv-A-2"))
+		rr, v := wait(async(func() (string, error) { return "", stA.Refresh(context.Background()) }), fmt.Sprintf("a Refresh while the lookup of %q is pending", c.Name))
+		if v == nil && rr.err == nil {
+			if got := string(stA.Secret("d").Get()); got != "dv-A-2" {
+				v = h.V("polled-after-lookup", "a Refresh issued while the lookup of a secret named %q was pending returned nil without polling: the declared secret still yields %q", c.Name, got)
+			}
+		}
+		svcA.OpenGate()
+		if v != nil {
+			return v, info
+		}
+		if r, v := wait(chL, "the lookup"); v != nil || r.err != nil || r.val != "value-from-A" {
+			return h.V("working-handle", "the lookup of %q returned %q, %v (%v)", c.Name, r.val, r.err, v), info
+		}
+		info.Class("refresh-while-a-lookup-is-pending")
+	}
+	info.NonTrivial = true
+	return nil, info
+}
+
+var c16neighbours = &h.Campaign[NeighbourCase]{
+	Prop: "C16", Sub: "neighbours",
+	Rule: "rapid (real time, gates): (1) two stores in one process, each over its own service; store A's lookup of a name is held at A's service while store B looks the same name up: B is served by its own service at once, knows the secret afterwards, and A gets A's value; (2) a Refresh is held at the service while an undeclared secret is looked up - its name drawn from {x, poll, lookup:x, refresh} - and (3) the other way round: each gets its own answer, a Refresh that returns nil has polled; non-trivial = every completed case; distinct by scenario",
+	Quick: 60, Thorough: 3000, ShrinkTime: "1ms",
+	Gen: func(rt *rapid.T) NeighbourCase {
+		return NeighbourCase{Kind: rapid.SampledFrom([]string{"two-stores", "lookup-during-refresh", "refresh-during-lookup"}).Draw(rt, "kind"),
+			Name: rapid.SampledFrom([]string{"x", "poll", "poll", "lookup:x", "refresh"}).Draw(rt, "name"), Entry: rapid.SampledFrom([]string{"lookup", "updater"}).Draw(rt, "entry")}
+	},
+	Run: runC16Neighbours,
+}
+
+func init() { c16neighbours.Register() }
+
+func TestC16Neighbours(t *testing.T) { c16neighbours.Check(t) }
